@@ -9,6 +9,10 @@
 (*                                                                           *)
 (* An embedding places `copies` copies of the example in one file:           *)
 (*   before   filler blocks at module level in front of everything           *)
+(*   guard    the first filler block is a script entry guard                  *)
+(*            (`if __name__ == "__main__":` + two statements) instead of a    *)
+(*            function - same number of lines; what follows it is ordinary    *)
+(*            module-level code                                               *)
 (*   ctx      a sequence of enclosing frames (function, class, if, try,      *)
 (*            with, for, while), outermost first                             *)
 (*   inner    one unrelated statement inside the innermost scope             *)
@@ -40,8 +44,9 @@ Ctxs == UNION {[1..n -> Frames] : n \in 0..MaxDepth}
 
 \* which embeddings make sense for which kind of example (loopOk: the linter's verdict does not depend on
 \* being inside a loop; nestOk: the language allows the example below module level)
-Valid(kind, ctx, before, inner, copies, rename, after, sibling, loopOk) ==
+Valid(kind, ctx, before, guard, inner, copies, rename, after, sibling, loopOk) ==
     /\ (~loopOk => SeqSet(ctx) \cap Loops = {})
+    /\ (guard => before >= 1)
     /\ CASE kind = "whole"  -> ctx = <<>> /\ before = 0 /\ ~inner /\ copies = 1 /\ ~rename
          [] kind = "split"  -> ctx = <<>> /\ before = 0 /\ ~inner /\ copies = 1 /\ ~rename /\ ~after /\ sibling = "none"
          [] kind = "module" -> ctx = <<>> /\ ~inner
@@ -49,20 +54,20 @@ Valid(kind, ctx, before, inner, copies, rename, after, sibling, loopOk) ==
          [] kind = "fnbody" -> Len(ctx) >= 1 /\ ctx[1] = "func" /\ "class" \notin SeqSet(ctx)
          [] kind = "stmts"  -> TRUE
 
-VARIABLES kind, ctx, before, inner, copies, rename, after, sibling, loopOk, done
-vars == <<kind, ctx, before, inner, copies, rename, after, sibling, loopOk, done>>
+VARIABLES kind, ctx, before, guard, inner, copies, rename, after, sibling, loopOk, done
+vars == <<kind, ctx, before, guard, inner, copies, rename, after, sibling, loopOk, done>>
 
-Init == /\ kind = "stmts" /\ ctx = <<>> /\ before = 0 /\ inner = FALSE /\ copies = 1 /\ rename = FALSE
+Init == /\ kind = "stmts" /\ ctx = <<>> /\ before = 0 /\ guard = FALSE /\ inner = FALSE /\ copies = 1 /\ rename = FALSE
         /\ after = FALSE /\ sibling = "none" /\ loopOk = TRUE /\ done = FALSE
-Choose(k, c, b, i, n, r, a, s, l) ==
-    /\ ~done /\ Valid(k, c, b, i, n, r, a, s, l)
-    /\ kind' = k /\ ctx' = c /\ before' = b /\ inner' = i /\ copies' = n /\ rename' = r /\ after' = a
+Choose(k, c, b, gd, i, n, r, a, s, l) ==
+    /\ ~done /\ Valid(k, c, b, gd, i, n, r, a, s, l)
+    /\ kind' = k /\ ctx' = c /\ before' = b /\ guard' = gd /\ inner' = i /\ copies' = n /\ rename' = r /\ after' = a
     /\ sibling' = s /\ loopOk' = l /\ done' = TRUE
-Next == \E k \in Kinds, c \in Ctxs, b \in 0..MaxBefore, i \in BOOLEAN, n \in 1..MaxCopies, r \in BOOLEAN,
-           a \in BOOLEAN, s \in Siblings, l \in BOOLEAN : Choose(k, c, b, i, n, r, a, s, l)
+Next == \E k \in Kinds, c \in Ctxs, b \in 0..MaxBefore, gd \in BOOLEAN, i \in BOOLEAN, n \in 1..MaxCopies, r \in BOOLEAN,
+           a \in BOOLEAN, s \in Siblings, l \in BOOLEAN : Choose(k, c, b, gd, i, n, r, a, s, l)
 Spec == Init /\ [][Next]_vars
 
-Emit == done => PrintT(<<"CASE", ToJson([kind |-> kind, ctx |-> ctx, before |-> before, inner |-> inner,
+Emit == done => PrintT(<<"CASE", ToJson([kind |-> kind, ctx |-> ctx, before |-> before, guard |-> guard, inner |-> inner,
                                           copies |-> copies, rename |-> rename, after |-> after,
                                           sibling |-> sibling, loopOk |-> loopOk])>>)
 
